@@ -585,3 +585,17 @@ def op_checkmultisigverify(st, valid):
     if r is None:
         return None
     return op_verify(r)
+
+
+def std_lock_script(kind, payload, witver=1):
+    """the standard locking script of a destination: P2PKH, P2SH (BIP16), P2WPKH / P2WSH (BIP141), P2TR and other witness versions (BIP341 / BIP141:
+    OP_n for version n >= 1)"""
+    if kind == 'p2pkh':
+        return b'\x76\xa9' + push_data(payload) + b'\x88\xac'
+    if kind == 'p2sh':
+        return b'\xa9' + push_data(payload) + b'\x87'
+    if kind in ('p2wpkh', 'p2wsh'):
+        return b'\x00' + push_data(payload)
+    if kind == 'p2tr':
+        return bytes([0x50 + witver]) + push_data(payload)
+    raise ValueError(kind)
